@@ -272,14 +272,23 @@ def include_rules(chk, rule, module, rule_ids, what):
     cache = chk.prog.__dict__.setdefault("_included_runs", {})
     costly = tuple(sorted(r for r in rule_ids if r in EXPENSIVE_RULES))
     ckey = (module.__name__, chk.tier, costly)
+    stack = chk.prog.__dict__.setdefault("_include_stack", [])
     if ckey not in cache:
+        if module.__name__ in stack:
+            # the included property (directly or through its own includes) includes the one that is running: the clause is
+            # decided where that run reports it, not a second time inside itself
+            rule.note("%s is being evaluated further up (mutual include): %s not re-checked here" % (module.__name__.split("_")[-1], "/".join(rule_ids)))
+            return 0
         sub = Check(chk.prop, chk.prog, tier=chk.tier, seed=chk.seed)
         sub.included_for = set(rule_ids)  # a module may skip an expensive rule nobody asked for (Check.wanted)
         err = None
+        stack.append(module.__name__)
         try:
             module.run(sub)
         except AnalysisError as e:
             err = e
+        finally:
+            stack.pop()
         cache[ckey] = (sub, err)
     sub, err = cache[ckey]
     if err is not None and not any(r.id in rule_ids for r in sub.rules):
